@@ -98,7 +98,8 @@ def digest_difference(a, b):
     return None
 
 
-def one_run(case):
+def one_run(case, twice=False):
+    """twice: the SAME task object is solved a second time by a second fresh optimizer; the second outcome is returned"""
     opt, cfg = make_optimizer(case)
     rid = f"c07-{os.getpid()}-{id(case)}"
     tasks.register_run(rid, case["spec"])
@@ -107,6 +108,9 @@ def one_run(case):
             task = tasks.build_task(case["spec"], rid)
         except Exception as e:      # the documented Task(seed=<int>) must be constructible
             return {"status": "exc", "exc": type(e).__name__, "func": "Task(seed)"}
+        if twice:
+            optimize_plain(opt, task, mode="serial")
+            opt, cfg = make_optimizer(case)
         st, payload = optimize_plain(opt, task, mode="serial")
         dg = digest_outcome(outcome_canon(st, payload))
         if st == "ok":
@@ -155,10 +159,11 @@ def work(item, opts):
             _RNG_ON[0] = False
         leaks = list(RNG_LOG)
         a2 = one_run(case)
+        a3 = one_run(case, twice=True) if item["k"] % 2 == 0 else a2      # equal task = the very same Task object, solved again
         # different seed: allowed to differ, never required to; counted for evidence only
         other = dict(case, spec=dict(case["spec"], seed=(case["spec"]["seed"] + 12345) % (2 ** 32)))
         o = one_run(other)
-        return {"a": a, "same_process_diff": digest_difference(a, a2), "leaks": leaks,
+        return {"a": a, "same_process_diff": digest_difference(a, a2) or digest_difference(a, a3), "same_task_twice": item["k"] % 2 == 0, "leaks": leaks,
                 "other_seed_differs": digest_difference(a, o) is not None, "cycles": len(a.get("gens", [])) - 1}
     np.random.random(3)
     return {"b": one_run(case)}
@@ -223,11 +228,12 @@ def check(prop, tier, seed):
         if len(rep.samples) < 3 and a["status"] == "ok":
             rep.sample({"optimizer": case["opt"], "seed": case["spec"]["seed"], "vars": case["spec"]["vars"],
                         "generations": len(a["gens"]), "digest_generation_0": a["gens"][0], "digest_B_generation_0": b["gens"][0]})
+    rep.extra["cases_where_the_same_task_object_was_solved_twice"] = sum(1 for ra in res_a if not isinstance(ra, Lost) and ra.get("same_task_twice"))
     rep.extra.update({"pairs_compared": pairs, "completed_pairs": completed, "optimizers_observed": len(opts_seen),
                       "pairs_with_other_seed_that_differ": other_differs,
                       "seeds_used": "0, 1, 42, 2^31-1, 2^32-1 (35 %) and random 32-bit integers"})
     rep.rule = ("cases generated from VERIF_SEED: every optimizer x task kinds x min/max x integer seeds; A after RNG "
-                "perturbation, A' same process, B in another worker process with another PYTHONHASHSEED; oracle: "
+                "perturbation, A' same process (rebuilt task; for every second case also the same Task object solved a second time), B in another worker process with another PYTHONHASHSEED; oracle: "
                 "digests of every generation/rates/best identical; non-trivial = completed run with >= 1 cycle")
     rep.require("optimizers_observed", len(opts_seen), 84)
     rep.require("completed_pairs", completed, int(0.6 * n))
